@@ -233,7 +233,7 @@ func HarnessC17Install() {
 //gosym:cover upgraded downgraded stays-at-installed no-valid-version untouched two-parents digest-parents
 func HarnessC17Upgrade() {
 	s := zzStore()
-	vs, tags := zzTags(zz.Bound(2, 3), zz.Bound(0, 2))
+	vs, tags := zzTags(zz.Bound(2, 3), zz.Bound(0, 1))
 	downgrades := zz.Bool("downgradesEnabled")
 
 	// one or two parents, each with its own constraint on the dependency
